@@ -314,7 +314,9 @@ pub fn run(ctx: &Ctx) {
             // dangling link: the path "exists" only as a link; its target is absent (and must stay absent)
             let _ = std::os::unix::fs::symlink("link-target-that-does-not-exist.bin", &out);
         } else if state == 4 {
-            std::fs::write(dir.join("link-target.bin"), PRIOR).unwrap();
+            // the link's target holds content LONGER than anything the command could write (a stale tail would show)
+            let long: Vec<u8> = (0..400_000u32).map(|i| (i % 249) as u8).collect();
+            std::fs::write(dir.join("link-target.bin"), if jfull % 2 == 0 { &long[..] } else { PRIOR }).unwrap();
             let _ = std::os::unix::fs::symlink("link-target.bin", &out);
         }
         // stale siblings of the output path (as an interrupted earlier run of some tool could leave them): part of the
